@@ -57,6 +57,10 @@ struct Case {
     mode: Mode,
     /// calls happen inside an entered harness span
     outer: bool,
+    /// from its second poll on, every poll of a future happens inside a span of its own that the
+    /// executor enters for it (the context around a future differs from poll to poll)
+    #[serde(default)]
+    drivers: bool,
     calls: Vec<(u16, RawIn)>,
     sched: Vec<u8>,
 }
@@ -135,6 +139,8 @@ struct C17Coll {
     mode: Mode,
     log: Arc<Mutex<Vec<(usize, CCall)>>>,
     next: std::sync::atomic::AtomicU64,
+    /// metadata of every span handed out (for current_span)
+    metas: Mutex<std::collections::HashMap<u64, &'static Metadata<'static>>>,
 }
 fn is_harness(m: &Metadata<'_>) -> bool {
     m.name().starts_with("c17_")
@@ -166,6 +172,7 @@ impl Collect for C17Coll {
     }
     fn new_span(&self, a: &span::Attributes<'_>) -> span::Id {
         let id = self.next.fetch_add(1, std::sync::atomic::Ordering::Relaxed);
+        self.metas.lock().unwrap().insert(id, a.metadata());
         if !is_harness(a.metadata()) {
             let mut v = TypedVisitor::default();
             a.record(&mut v);
@@ -195,7 +202,9 @@ impl Collect for C17Coll {
         } else if let Some(p) = e.parent() {
             PSeen::Explicit(p.into_u64())
         } else {
-            PSeen::Contextual(cur())
+            // (the ambient span of the poll in progress is recorded as such, see `fx`)
+            let c = cur();
+            PSeen::Contextual(if c == CTX.with(|x| x.get()) { AMBIENT } else { c })
         };
         let m = e.metadata();
         self.push(CCall::Event { target: m.target().to_string(), level: rank_of(m.level()), parent, visited: v.0 });
@@ -214,7 +223,10 @@ impl Collect for C17Coll {
         self.push(CCall::Exit(id.into_u64()));
     }
     fn current_span(&self) -> span::Current {
-        span::Current::unknown()
+        match cur().and_then(|id| self.metas.lock().unwrap().get(&id).map(|m| (id, *m))) {
+            Some((id, m)) => span::Current::new(span::Id::from_u64(id), m),
+            None => span::Current::none(),
+        }
     }
 }
 
@@ -255,6 +267,9 @@ fn run_variant(case: &Case, inst: bool) -> VariantResult {
         SLOT.with(|s| s.set(usize::MAX));
         let outer = if case.outer { Some(tracing::span!(Level::ERROR, "c17_outer").entered()) } else { None };
         let outer_id = outer.as_ref().and_then(|o| o.id()).map(|i| i.into_u64());
+        // (without a collector of ours nothing tracks entered spans: the ambient span is "none")
+        let tracked = case.mode != Mode::NoCollector;
+        CTX.with(|c| c.set(outer_id.filter(|_| tracked)));
         let inputs: Vec<In> = case.calls.iter().map(|(_, r)| In { a: r.a, b: r.b, s: r.s.clone(), flag: r.flag, x: r.x, y: r.y, fbits: r.fbits }).collect();
         let mut envs: Vec<Env> = inputs.iter().map(|i| Env { psp: tracing::span!(Level::ERROR, "c17_psp"), cause: tracing::span!(Level::ERROR, "c17_cause"), tok_r: Tok::new(9), counter: Counter { n: i.x }, svc: Svc::new(i.b) }).collect();
         let psp_ids: Vec<Option<u64>> = envs.iter().map(|e| e.psp.id().map(|i| i.into_u64())).collect();
@@ -291,6 +306,12 @@ fn run_variant(case: &Case, inst: bool) -> VariantResult {
                 let b = case.sched.get(si).copied().unwrap_or(0);
                 si += 1;
                 let k = alive[b as usize % alive.len()];
+                // (the driver span is nobody's call: its own notifications carry no slot)
+                SLOT.with(|s| s.set(usize::MAX));
+                let driver = if case.drivers && polls[k] >= 1 { Some(tracing::span!(Level::ERROR, "c17_driver").entered()) } else { None };
+                if let Some(d) = &driver {
+                    CTX.with(|c| c.set(d.id().map(|i| i.into_u64()).filter(|_| tracked)));
+                }
                 SLOT.with(|s| s.set(k));
                 let base: Vec<u64> = CUR.with(|c| c.borrow().clone());
                 polls[k] += 1;
@@ -319,6 +340,9 @@ fn run_variant(case: &Case, inst: bool) -> VariantResult {
                     outs[k] = Some(Err("harness: future did not complete in 64 polls".into()));
                     futs[k] = None;
                 }
+                SLOT.with(|s| s.set(usize::MAX));
+                drop(driver);
+                CTX.with(|c| c.set(outer_id.filter(|_| tracked)));
             }
         }
         SLOT.with(|s| s.set(usize::MAX));
@@ -341,7 +365,7 @@ fn run_variant(case: &Case, inst: bool) -> VariantResult {
     let (calls, outer_id, psp_ids, cause_ids) = if case.mode == Mode::NoCollector {
         body()
     } else {
-        let d = Dispatch::new(C17Coll { mode: case.mode, log: log.clone(), next: std::sync::atomic::AtomicU64::new(100) });
+        let d = Dispatch::new(C17Coll { mode: case.mode, log: log.clone(), next: std::sync::atomic::AtomicU64::new(100), metas: Default::default() });
         tracing_core::dispatch::with_default(&d, body)
     };
     let log = log.lock().unwrap().clone();
@@ -419,8 +443,13 @@ fn run_case(case: &Case) -> Outcome {
             if !spans.is_empty() {
                 return Outcome::fail("a span was created although the collector / level cap disables it", ctx());
             }
-            if i.marks.iter().any(|m| m.1 != base) {
+            let _ = base;
+            if i.marks.iter().any(|m| m.1 != AMBIENT) {
                 return Outcome::fail("body ran inside some span although its own span is disabled", ctx());
+            }
+            // nothing may be entered or left on behalf of this call
+            if mine.iter().any(|c| matches!(c, CCall::Enter(_) | CCall::Exit(_))) {
+                return Outcome::fail("a span was entered or exited during the call although its own span is disabled", ctx());
             }
             classes.push("span_disabled".into());
         } else {
@@ -519,7 +548,7 @@ fn run_case(case: &Case) -> Outcome {
         }
         for (e, w) in events.iter().zip(&want_events) {
             if let CCall::Event { target: t, level, parent, visited } = e {
-                let inside = if span_on { span_id } else { base };
+                let inside = if span_on { span_id } else { AMBIENT };
                 if *parent != PSeen::Contextual(inside) {
                     return Outcome::fail("ret / err event is not emitted inside the call's span", format!("expected current span {inside:?}; {}", ctx()));
                 }
@@ -570,7 +599,7 @@ impl Property for C17 {
         )
             .prop_map(|(a, b, s, flag, x, y, fbits)| RawIn { a, b, s, flag, x, y, fbits });
         let mode = prop_oneof![6 => Just(Mode::All), 1 => Just(Mode::Never), 1 => Just(Mode::DynOff), 2 => (1u8..6).prop_map(Mode::Cap), 1 => Just(Mode::NoCollector)];
-        (mode, any::<bool>(), proptest::collection::vec((any::<u16>(), raw), 1..4), proptest::collection::vec(any::<u8>(), 0..12)).prop_map(|(mode, outer, calls, sched)| Case { corpus_seed: corpus::SEED, mode, outer, calls, sched }).boxed()
+        (mode, any::<bool>(), proptest::collection::vec((any::<u16>(), raw), 1..4), proptest::collection::vec(any::<u8>(), 0..12), proptest::bool::weighted(0.4)).prop_map(|(mode, outer, calls, sched, drivers)| Case { corpus_seed: corpus::SEED, mode, outer, calls, sched, drivers }).boxed()
     }
     fn run(&self, case: &Case) -> Outcome {
         run_case(case)
